@@ -453,9 +453,10 @@ def s_sorted(F, res):
                         continue
 
                     def want(t_, callee, p=p):
-                        return callee["path"] == p
+                        # the searching helper, and the crate's small helpers next to it (`sorted_unique(keys)`)
+                        return callee["path"] == p or _small_helpers(t_, callee)
                     _KEEP.append(want)
-                    hi = mir.inline_calls(F, caller, want=want, depth=1)
+                    hi = mir.inline_calls(F, caller, want=want, depth=2)
                     dh, ch = mir.DefUse(hi), mir.CFG(hi)
                     for bj, t2 in mir.calls(hi):
                         if is_pos(t2) and hi["blocks"][bj].get("inl") == p:
